@@ -93,8 +93,7 @@ func (ctx *Context) Parse(value string) error {
 	if ctx.Config.ParseExprLimit != 0 {
 		p.maxExprCnt = ctx.Config.ParseExprLimit
 	}
-	// 设置错误消息语言
-	SetParseErrorLanguage(ctx.Config.ParseErrorLanguage)
+	// 错误消息语言取自 ctx.Config.ParseErrorLanguage(见 parser.parse)，不再写全局变量
 	verifYield("parse.lang")
 	_, err := func() (val any, err error) {
 		defer func() {
